@@ -297,32 +297,42 @@ func c03Gen(n int) func(c *mc.Chooser) c03Dims {
 	}
 }
 
-func c03Run(r *mc.Run) {
-	bounds := map[int]int{0: 2, 1: 2, 2: 2, 3: 1}
-	if r.Thorough() {
+func c03Cases(thorough bool, stop func() bool) (cases []c03Case, shapes int, bounds map[int]int, complete bool) {
+	bounds = map[int]int{0: 2, 1: 2, 2: 2, 3: 1}
+	if thorough {
 		bounds = map[int]int{0: 4, 1: 3, 2: 3, 3: 3}
 	}
-	r.Rule = "deviation-bounded DFS over profile-fault dimensions (Response: version, destination, issuer, status; per assertion position: issuer, subject structure, recipient, NotOnOrAfter) for n=0..3 assertions x 6 configurations x 2 entry points; non-trivial = the document got past decoding and signature processing into the profile validation (error is nil or a typed validation error); distinct = distinct (dims,cfg)"
-	r.Set("deviation_bound_by_n", fmt.Sprint(bounds))
+	complete = true
 	var dims []c03Dims
 	for n := 0; n <= 3; n++ {
 		g := c03Gen(n)
-		_, complete := mc.Enumerate(bounds[n], r.Expired, func(c *mc.Chooser) { dims = append(dims, g(c)) })
-		if !complete {
-			r.Cap("enumeration stopped by deadline")
+		_, ok := mc.Enumerate(bounds[n], stop, func(c *mc.Chooser) { dims = append(dims, g(c)) })
+		if !ok {
+			complete = false
 		}
 	}
-	r.Set("shapes", len(dims))
-	var cases []c03Case
 	for _, d := range dims {
 		for cfg := 0; cfg < 6; cfg++ {
 			cases = append(cases, c03Case{D: d, Cfg: cfg})
 		}
 	}
-	r.State(len(dims))
+	return cases, len(dims), bounds, complete
+}
+
+func c03Run(r *mc.Run) {
+	r.Rule = "deviation-bounded DFS over profile-fault dimensions (Response: version, destination, issuer, status; per assertion position: issuer, subject structure, recipient, NotOnOrAfter) for n=0..3 assertions x 6 configurations x 2 entry points, each case judged on fresh instances and again, in sequence on one goroutine, on long-lived instances (one per configuration); non-trivial = the document got past decoding and signature processing into the profile validation (error is nil or a typed validation error); distinct = distinct (dims,cfg)"
+	cases, shapes, bounds, complete := c03Cases(r.Thorough(), r.Expired)
+	if !complete {
+		r.Cap("enumeration stopped by deadline")
+	}
+	r.Set("deviation_bound_by_n", fmt.Sprint(bounds))
+	r.Set("shapes", shapes)
+	r.State(shapes)
+	fresh := make([]string, len(cases))
 	r.Par(len(cases), func(i int) {
 		c := cases[i]
 		keys, detail, class := c03Exec(c)
+		fresh[i] = sig(keys, class)
 		r.Eval(2)
 		r.Transition(2)
 		r.Bucket(class)
@@ -336,8 +346,36 @@ func c03Run(r *mc.Run) {
 			r.Violation(k, detail, c)
 		}
 	})
+	stride := 1
+	if r.Thorough() {
+		stride = 8
+	}
+	livePass(r, len(cases), stride, 90*time.Second, func(i int) string {
+		keys, _, class := c03Exec(cases[i])
+		return sig(keys, class)
+	}, fresh)
+}
+
+var c03CaseMemo = map[string][]c03Case{}
+
+func c03ReplayAll(raw json.RawMessage) ([]string, string) {
+	get := func(tier string) []c03Case {
+		if c, ok := c03CaseMemo[tier]; ok {
+			return c
+		}
+		c, _, _, _ := c03Cases(tier == "thorough", nil)
+		c03CaseMemo[tier] = c
+		return c
+	}
+	if keys, detail, ok := liveReplay(raw, "C03", func(t string) int { return len(get(t)) }, func(t string, i int) string {
+		k, _, class := c03Exec(get(t)[i])
+		return sig(k, class)
+	}); ok {
+		return keys, detail
+	}
+	return c03Replay(raw)
 }
 
 func init() {
-	register("C03", &check{run: c03Run, replay: func(raw json.RawMessage) ([]string, string) { return c03Replay(raw) }, quick: 150 * time.Second, thor: 900 * time.Second})
+	register("C03", &check{run: c03Run, replay: c03ReplayAll, quick: 150 * time.Second, thor: 900 * time.Second})
 }
